@@ -156,13 +156,7 @@ class Engine:
             return True
         if z3.is_false(cond):
             return False
-        cid = cond.get_id()
-        hit = self.decided.get(cid)
-        if hit is not None:
-            return hit[0]
-        d = self._decide(cond)
-        self.decided[cid] = (d, cond)
-        return d
+        return self._decide(cond)
 
     def _decide(self, cond):
         if self.no_fork:
@@ -187,7 +181,14 @@ class Engine:
                 if not ok:
                     raise PathAbort()
                 self.model = m
+            self.decided[cond.get_id()] = (d, cond)
             return d
+        hit = self.decided.get(cond.get_id())
+        if hit is not None:
+            # already decided on this path (implied by the path condition): no query, but the decision is
+            # still recorded so that trace positions do not depend on cache hits
+            self.trace.append((hit[0], h))
+            return hit[0]
         m = self.get_model()
         d = z3.is_true(m.eval(cond, model_completion=True))
         ok, _ = self._check(z3.Not(cond) if d else cond)
@@ -198,6 +199,7 @@ class Engine:
         self.trace.append((d, h))
         if self.lits is not None:
             self.lits.append(lit)
+        self.decided[cond.get_id()] = (d, cond)
         # current model still satisfies the added literal
         return d
 
